@@ -92,6 +92,7 @@ func c18Getter(c *Ctx, fn *ssa.Function) int {
 	name := shortFn(fn)
 	items := map[string]*idItem{}
 	var order []string
+	var keyParam *ssa.Parameter
 	for _, call := range Calls(fn) {
 		cv, ok := call.(*ssa.Call)
 		if !ok {
@@ -100,6 +101,9 @@ func c18Getter(c *Ctx, fn *ssa.Function) int {
 		switch {
 		case isStorageInvoke(call, "Get"):
 			k, ok := constKey(cv.Call.Args[0])
+			if pr, isP := cv.Call.Args[0].(*ssa.Parameter); !ok && isP && pr.Parent() == fn {
+				k, ok, keyParam = "<"+pr.Name()+">", true, pr // a generic load-or-generate helper: the item is named by its caller
+			}
 			if !ok {
 				c.Undecided("identity-key-agreement", name+" Get key", p.InstrPos(call), "Get is called with a key that is not a constant: "+Render(cv.Call.Args[0]))
 				continue
@@ -118,6 +122,9 @@ func c18Getter(c *Ctx, fn *ssa.Function) int {
 			order = append(order, k)
 		case isStorageInvoke(call, "Set"):
 			k, ok := constKey(cv.Call.Args[0])
+			if pr, isP := cv.Call.Args[0].(*ssa.Parameter); !ok && isP && pr.Parent() == fn {
+				k, ok = "<"+pr.Name()+">", true
+			}
 			if !ok {
 				c.Undecided("identity-key-agreement", name+" Set key", p.InstrPos(call), "Set is called with a key that is not a constant (items stored by a computed or iterated key cannot be paired with their Get, nor ordered): "+Render(cv.Call.Args[0]))
 				continue
@@ -213,7 +220,97 @@ func c18Getter(c *Ctx, fn *ssa.Function) int {
 			}
 		}
 	}
+	if keyParam != nil {
+		return c18HelperSites(c, fn, keyParam)
+	}
 	return len(order)
+}
+
+// c18HelperSites: fn is a generic load-or-generate helper (its item key is a parameter; the per-item rules above were
+// decided on the helper with the symbolic key). Every call site names its item with a constant; an item whose generator
+// callback consumes the result of another call of the helper (certificate <- key) is requested after that call returned,
+// so the key item is settled (loaded or stored) before the derived item can be stored.
+func c18HelperSites(c *Ctx, fn *ssa.Function, keyParam *ssa.Parameter) int {
+	p := c.P
+	kidx := paramIdx(keyParam)
+	type site struct {
+		call *ssa.Call
+		key  string
+		res  ssa.Value
+	}
+	byCaller := map[*ssa.Function][]site{}
+	n := 0
+	for _, g := range p.Funcs() {
+		for _, call := range Calls(g) {
+			cv, ok := call.(*ssa.Call)
+			if !ok || cv.Call.StaticCallee() != fn || kidx >= len(cv.Call.Args) {
+				continue
+			}
+			k, isC := constKey(cv.Call.Args[kidx])
+			if !isC {
+				c.Undecided("identity-key-agreement", shortFn(g)+" calls "+shortFn(fn), p.InstrPos(cv), "the load-or-generate helper is called with an item name that is not a constant: "+Render(cv.Call.Args[kidx]))
+				continue
+			}
+			n++
+			st := site{call: cv, key: k}
+			for _, ref := range *cv.Referrers() {
+				if ex, ok := ref.(*ssa.Extract); ok && ex.Index == 0 {
+					st.res = ex
+				}
+			}
+			if cv.Type() != nil {
+				if _, isT := cv.Type().(*types.Tuple); !isT {
+					st.res = cv
+				}
+			}
+			byCaller[g] = append(byCaller[g], st)
+			c.Ok("identity-key-agreement", shortFn(g)+" item "+k, p.InstrPos(cv), "loaded and stored by "+shortFn(fn)+" under this constant name")
+		}
+	}
+	for g, sites := range byCaller {
+		for _, b := range sites {
+			// values the generator argument(s) of b are built from
+			for ai, a := range b.call.Call.Args {
+				if ai == kidx {
+					continue
+				}
+				mc, ok := a.(*ssa.MakeClosure)
+				if !ok {
+					continue
+				}
+				for _, bind := range mc.Bindings {
+					for _, a2 := range sites {
+						if a2.call == b.call || a2.res == nil {
+							continue
+						}
+						uses := false
+						for _, lf := range leaves(derefCell(bind)) {
+							if lf == a2.res {
+								uses = true
+							}
+						}
+						if !uses {
+							continue
+						}
+						key := shortFn(g) + " " + a2.key + " stored before " + b.key
+						c.Check(before(a2.call, b.call), "identity-store-order", key, p.InstrPos(b.call), "the key item is settled (loaded or stored) before the derived item is requested", "the derived item \""+b.key+"\" is requested before the item \""+a2.key+"\" it is generated from")
+						c.Ok("identity-derived-from-persisted", shortFn(g)+" "+b.key+" from "+a2.key, p.InstrPos(b.call), "generated from the loaded-or-stored "+a2.key)
+					}
+				}
+			}
+		}
+	}
+	return n
+}
+
+// derefCell: a closure binding is the address of a local; its content is what was stored there.
+func derefCell(v ssa.Value) ssa.Value {
+	if a, ok := v.(*ssa.Alloc); ok {
+		if sv := StoredValues(a); len(sv) == 1 {
+			return sv[0]
+		}
+	}
+	return v
 }
 
 // generatorOrigins: the call instructions (non-storage) whose results flow into v through phis/extracts/conversions,
